@@ -11,6 +11,7 @@ package main
 import (
 	"crypto/sha256"
 	"fmt"
+	"sync/atomic"
 
 	"github.com/Tnze/go-mc/yggdrasil/user"
 
@@ -108,9 +109,7 @@ func judgeNeighbours(n int) int64 {
 
 func neighbourFamily(maxLen int) int64 {
 	var total int64
-	for n := 0; n <= maxLen; n++ {
-		total += judgeNeighbours(n)
-	}
+	engine.ParallelFor(maxLen+1, func(_, n int) { atomic.AddInt64(&total, judgeNeighbours(n)) })
 	rep.Count("sig_neighbour_key_lengths", int64(maxLen+1))
 	rep.Extra("sig_neighbour_menu", fmt.Sprintf("every key-blob length 0..%d x %v, presented with the genuine signature of the unmodified blob (harness key as the trusted key)", maxLen, neighbourKinds))
 	return total
